@@ -105,7 +105,10 @@ func generate(r *ev.Run, idx int, kind string) tcase {
 type parked struct {
 	entered chan struct{}
 	release chan struct{}
+	fail    bool // the base call fails after having been released
 }
+
+var errScripted = status.Error(codes.Unavailable, "scripted storage failure")
 
 type gatedBase struct {
 	mu    sync.Mutex
@@ -114,21 +117,40 @@ type gatedBase struct {
 
 type readerKey struct{}
 
-func (g *gatedBase) park(ctx context.Context) {
+func (g *gatedBase) park(ctx context.Context) error {
 	g.mu.Lock()
 	p := g.calls[ctx.Value(readerKey{}).(int)]
 	g.mu.Unlock()
 	close(p.entered)
 	<-p.release
+	if p.fail {
+		return errScripted
+	}
+	return nil
 }
 
 type pendingReader struct {
 	closed atomic.Int32
 	data   *strings.Reader
+	// failAfter >= 0: Read fails once that many bytes were delivered.
+	failAfter int
+	delivered int
 }
 
-func (p *pendingReader) Read(b []byte) (int, error) { return p.data.Read(b) }
-func (p *pendingReader) Close() error               { p.closed.Add(1); return nil }
+func (p *pendingReader) Read(b []byte) (int, error) {
+	if p.failAfter >= 0 {
+		if p.delivered >= p.failAfter {
+			return 0, errScripted
+		}
+		if len(b) > p.failAfter-p.delivered {
+			b = b[:p.failAfter-p.delivered]
+		}
+	}
+	n, err := p.data.Read(b)
+	p.delivered += n
+	return n, err
+}
+func (p *pendingReader) Close() error { p.closed.Add(1); return nil }
 
 var blobData = "hello, suspended world"
 var blobDigest = wexec.DigestOf([]byte(blobData))
@@ -138,8 +160,14 @@ func (g *gatedBase) Get(ctx context.Context, d digest.Digest) buffer.Buffer {
 	if d == errDigest {
 		return buffer.NewBufferFromError(status.Error(codes.NotFound, "no such blob"))
 	}
-	return buffer.NewCASBufferFromReader(d, &pendingReader{data: strings.NewReader(blobData)}, buffer.UserProvided)
+	failAfter := -1
+	if f, ok := ctx.Value(failAfterKey{}).(int); ok {
+		failAfter = f
+	}
+	return buffer.NewCASBufferFromReader(d, &pendingReader{data: strings.NewReader(blobData), failAfter: failAfter}, buffer.UserProvided)
 }
+
+type failAfterKey struct{}
 
 func (g *gatedBase) GetFromComposite(ctx context.Context, parentDigest, childDigest digest.Digest, slicer slicing.BlobSlicer) buffer.Buffer {
 	return g.Get(ctx, childDigest)
@@ -147,32 +175,38 @@ func (g *gatedBase) GetFromComposite(ctx context.Context, parentDigest, childDig
 
 func (g *gatedBase) Put(ctx context.Context, d digest.Digest, b buffer.Buffer) error {
 	b.Discard()
-	g.park(ctx)
-	return nil
+	return g.park(ctx)
 }
 
 func (g *gatedBase) FindMissing(ctx context.Context, digests digest.Set) (digest.Set, error) {
-	g.park(ctx)
-	return digest.EmptySet, nil
+	return digest.EmptySet, g.park(ctx)
 }
 
 func (g *gatedBase) GetCapabilities(ctx context.Context, instanceName digest.InstanceName) (*remoteexecution.ServerCapabilities, error) {
-	g.park(ctx)
-	return nil, status.Error(codes.Unavailable, "scripted failure")
+	if err := g.park(ctx); err != nil {
+		return nil, err
+	}
+	return &remoteexecution.ServerCapabilities{}, nil
 }
 
 func (g *gatedBase) GetDirectory(ctx context.Context, d digest.Digest) (*remoteexecution.Directory, error) {
-	g.park(ctx)
+	if err := g.park(ctx); err != nil {
+		return nil, err
+	}
 	return &remoteexecution.Directory{}, nil
 }
 
 func (g *gatedBase) GetTreeRootDirectory(ctx context.Context, d digest.Digest) (*remoteexecution.Directory, error) {
-	g.park(ctx)
-	return nil, status.Error(codes.NotFound, "scripted failure")
+	if err := g.park(ctx); err != nil {
+		return nil, err
+	}
+	return &remoteexecution.Directory{}, nil
 }
 
 func (g *gatedBase) GetTreeChildDirectory(ctx context.Context, treeDigest, childDigest digest.Digest) (*remoteexecution.Directory, error) {
-	g.park(ctx)
+	if err := g.park(ctx); err != nil {
+		return nil, err
+	}
 	return &remoteexecution.Directory{}, nil
 }
 
@@ -189,6 +223,10 @@ type readerState struct {
 	buf  buffer.Buffer
 	done chan struct{}
 	n    int
+	// counted after the timeline (reader operations may run concurrently)
+	failedCalls  int
+	bufferErrors int
+	consumed     map[string]int
 }
 
 type run struct {
@@ -223,6 +261,7 @@ type run struct {
 	// executor variant
 	exec *execState
 
+	rel      atomic.Uint64
 	hist     []string
 	sits     map[string]bool
 	inconcl  string
@@ -236,6 +275,27 @@ type execState struct {
 	response chan *remoteexecution.ExecuteResponse
 	returned bool // Execute has returned and its response was received
 	cleanup  func()
+	// launch starts another Execute call (timeout in units) on the same
+	// executor and clock and waits until its runner is entered.
+	launch func(timeout int) bool
+}
+
+// relevantCreated counts the base timers created for the objects under test.
+// The executor's own housekeeping context (writable file upload delay, one
+// hour) registers and stops its base timers asynchronously after Execute has
+// returned; those are not counted, so that they cannot be mistaken for the
+// re-arm loop of the object under test having settled.
+func (x *run) relevantCreated() uint64 { return x.rel.Load() }
+
+// relevantPending counts registered base timers of objects under test.
+func (x *run) relevantPending() int {
+	n := 0
+	for _, d := range x.clk.PendingDurations() {
+		if d < 30*time.Minute {
+			n++
+		}
+	}
+	return n
 }
 
 func (x *run) situation(s string) {
@@ -292,6 +352,11 @@ func runCase(r *ev.Run, c tcase) {
 		tie:         rand.New(rand.NewPCG(c.TieSeed, 99)),
 		sits:        map[string]bool{},
 		cancelledAt: -1,
+	}
+	clk.OnTimer = func(d time.Duration) {
+		if d < 30*time.Minute {
+			x.rel.Add(1)
+		}
 	}
 	for _, k := range c.Readers {
 		x.rds = append(x.rds, &readerState{kind: k})
@@ -464,11 +529,22 @@ func (x *run) readerOp(o op) int {
 		case "direct":
 			x.sc.Suspend()
 			return 1
-		case "blob-get":
-			rd.buf = x.ba.Get(ctx, blobDigest)
-			return 1
-		case "blob-composite":
-			rd.buf = x.ba.GetFromComposite(ctx, blobDigest, blobDigest, nil)
+		case "blob-get", "blob-composite":
+			// A third of the buffers fail before any data, a third
+			// mid-stream.
+			switch (rd.n + o.Reader + x.c.Idx/9) % 3 {
+			case 1:
+				ctx = context.WithValue(ctx, failAfterKey{}, 0)
+				rd.bufferErrors++
+			case 2:
+				ctx = context.WithValue(ctx, failAfterKey{}, 5)
+				rd.bufferErrors++
+			}
+			if rd.kind == "blob-get" {
+				rd.buf = x.ba.Get(ctx, blobDigest)
+			} else {
+				rd.buf = x.ba.GetFromComposite(ctx, blobDigest, blobDigest, nil)
+			}
 			return 1
 		case "blob-get-error":
 			// The base fails at once: the handler is done at once,
@@ -476,7 +552,10 @@ func (x *run) readerOp(o op) int {
 			rd.buf = x.ba.Get(ctx, errDigest)
 			return 0
 		default:
-			p := &parked{entered: make(chan struct{}), release: make(chan struct{})}
+			p := &parked{entered: make(chan struct{}), release: make(chan struct{}), fail: (rd.n+o.Reader)%2 == 0}
+			if p.fail {
+				rd.failedCalls++
+			}
 			x.gb.mu.Lock()
 			x.gb.calls[o.Reader] = p
 			x.gb.mu.Unlock()
@@ -512,15 +591,50 @@ func (x *run) readerOp(o op) int {
 		x.sc.Resume()
 		return -1
 	case "blob-get", "blob-composite":
-		switch rd.n % 3 {
-		case 0:
+		// Every way of finishing the buffer has to resume the clock
+		// exactly once, whether the data arrives or not.
+		how := []string{"discard", "to-byte-slice", "size-limit", "to-proto", "read-all", "close-early", "clone-copy", "clone-stream", "chunk-reader"}[(rd.n*7+o.Reader*3+x.c.Idx)%9]
+		if rd.consumed == nil {
+			rd.consumed = map[string]int{}
+		}
+		rd.consumed[how]++
+		switch how {
+		case "discard":
 			rd.buf.Discard()
-		case 1:
+		case "to-byte-slice":
 			rd.buf.ToByteSlice(1 << 10)
-		default:
+		case "size-limit":
+			rd.buf.ToByteSlice(4)
+		case "to-proto":
+			rd.buf.ToProto(&remoteexecution.Directory{}, 1<<10)
+		case "read-all":
 			rc := rd.buf.ToReader()
 			io.Copy(io.Discard, rc)
 			rc.Close()
+		case "close-early":
+			rc := rd.buf.ToReader()
+			var one [3]byte
+			rc.Read(one[:])
+			rc.Close()
+		case "clone-copy":
+			b1, b2 := rd.buf.CloneCopy(1 << 10)
+			b1.Discard()
+			b2.ToByteSlice(1 << 10)
+		case "clone-stream":
+			b1, b2 := rd.buf.CloneStream()
+			var wg sync.WaitGroup
+			wg.Add(2)
+			go func() { defer wg.Done(); b1.ToByteSlice(1 << 10) }()
+			go func() { defer wg.Done(); b2.ToByteSlice(1 << 10) }()
+			wg.Wait()
+		case "chunk-reader":
+			cr := rd.buf.ToChunkReader(0, 8)
+			for {
+				if _, err := cr.Read(); err != nil {
+					break
+				}
+			}
+			cr.Close()
 		}
 		return -1
 	case "blob-get-error":
@@ -551,7 +665,7 @@ func (x *run) create() {
 			x.situation("via-directory-fetcher")
 		}
 	}
-	before := x.clk.Created()
+	before := x.relevantCreated()
 	d := time.Duration(x.c.Timeout) * unit
 	switch x.c.Kind {
 	case "context":
@@ -567,19 +681,19 @@ func (x *run) create() {
 	}
 	x.logf("create %s", x.c.Kind)
 	// The re-arm loop registers its first base timer asynchronously.
-	x.wait("the first base timer", func() bool { return x.clk.Created() >= before+2 || x.isDone() })
+	x.wait("the first base timer", func() bool { return x.relevantCreated() >= before+2 || x.isDone() })
 }
 
 func (x *run) fire() {
 	suspended := x.count > 0
-	before := x.clk.Created()
+	before := x.relevantCreated()
 	pendingBefore := x.clk.Pending()
 	if !x.clk.FireNext(x.at(x.nowU)) {
 		x.inconcl = "no base timer was due although one was announced"
 		return
 	}
 	x.logf("base timer fires (pending %d)", pendingBefore)
-	if !x.wait("the re-arm loop to register its next base timer or finish", func() bool { return x.clk.Created() > before || x.isDone() }) {
+	if !x.wait("the re-arm loop to register its next base timer or finish", func() bool { return x.relevantCreated() > before || x.isDone() }) {
 		return
 	}
 	if x.isDone() {
@@ -623,7 +737,7 @@ func (x *run) doCancel(kind string) {
 			x.violation("stop-of-pending-timer-returned-false", "Stop() returned false although the timer had not fired")
 		}
 		x.stopped = true
-		x.wait("the timer loop to stop its base timers", func() bool { return x.clk.Pending() == 0 })
+		x.wait("the timer loop to stop its base timers", func() bool { return x.relevantPending() == 0 })
 		if len(x.timerCh) > 0 {
 			x.violation("stopped-timer-fired", "a value was delivered on the channel of a stopped timer")
 		}
@@ -667,7 +781,7 @@ func (x *run) onFinish(cause string) {
 		if val != time.Duration(ran)*unit {
 			x.violation("reported-unsuspended-duration-wrong cause="+causeClass(err), fmt.Sprintf("UnsuspendedDurationKey=%v, the command ran %v unsuspended (start %d, now %d)", val, time.Duration(ran)*unit, x.startAt, x.nowU))
 		}
-		x.wait("base timers of the finished context to be stopped", func() bool { return x.clk.Pending() == 0 })
+		x.wait("base timers of the finished context to be stopped", func() bool { return x.relevantPending() == 0 })
 	case "timer":
 		v := <-x.timerCh
 		if !v.Equal(x.at(x.nowU)) {
@@ -709,7 +823,7 @@ func (x *run) teardown() {
 	// Close every open reader interval so that no goroutine stays parked.
 	for i, rd := range x.rds {
 		if rd.open {
-			x.readerOp(op{What: "end", Reader: i})
+			x.count += x.readerOp(op{What: "end", Reader: i})
 		}
 	}
 	if x.cancel != nil {
@@ -721,20 +835,164 @@ func (x *run) teardown() {
 	if x.timer != nil {
 		x.timer.Stop()
 	}
-	if x.exec != nil {
-		if !x.exec.returned {
-			// Never remove the build directory under a running executor.
-			x.parentCancel()
+	x.awaitExecutor()
+	// Second step on the same clock: with no reader operation in
+	// progress the clock must run again.
+	if x.inconcl == "" && !x.violated && (x.exec == nil || x.exec.returned) {
+		x.finished = true
+		x.probe()
+		if x.exec != nil && x.inconcl == "" && !x.violated {
+			x.secondAction()
+		}
+	}
+	if x.parentCancel != nil {
+		x.parentCancel()
+	}
+	x.awaitExecutor()
+	if x.exec != nil && x.exec.returned {
+		x.exec.cleanup()
+	}
+	for _, rd := range x.rds {
+		if rd.failedCalls > 0 {
+			x.r.SituationN("storage-call-failed-under-suspending-wrapper", rd.failedCalls)
+		}
+		if rd.bufferErrors > 0 {
+			x.r.SituationN("buffer-read-error-under-suspending-wrapper", rd.bufferErrors)
+		}
+		for how, n := range rd.consumed {
+			x.r.SituationN("buffer-finished-by-"+how, n)
+		}
+	}
+}
+
+func (x *run) awaitExecutor() {
+	if x.exec != nil && !x.exec.returned {
+		// Never remove the build directory under a running executor.
+		x.parentCancel()
+		select {
+		case <-x.exec.response:
+			x.exec.returned = true
+		case <-time.After(40 * time.Second):
+			x.inconcl = "executor did not return at teardown"
+		}
+	}
+}
+
+// fireUntilDone advances the base clock timer by timer until ctx is done.
+func (x *run) fireUntilDone(ctx context.Context, limit int) bool {
+	for steps := 0; steps < limit; steps++ {
+		select {
+		case <-ctx.Done():
+			return true
+		default:
+		}
+		nd, ok := x.clk.NextDeadline()
+		if !ok {
+			return false
+		}
+		u := int(nd.Sub(x.at(0)) / unit)
+		x.advanceTo(u)
+		created := x.relevantCreated()
+		if !x.clk.FireNext(x.at(x.nowU)) {
+			return false
+		}
+		x.logf("base timer fires; pending now %v", x.clk.PendingDurations())
+		if !x.wait("the re-arm loop after a probe timer", func() bool {
 			select {
-			case <-x.exec.response:
-				x.exec.returned = true
-			case <-time.After(40 * time.Second):
-				x.inconcl = "executor did not return at teardown"
+			case <-ctx.Done():
+				return true
+			default:
+				return x.relevantCreated() > created
 			}
+		}) {
+			return false
 		}
-		if x.exec.returned {
-			x.exec.cleanup()
-		}
+	}
+	select {
+	case <-ctx.Done():
+		return true
+	default:
+		return false
+	}
+}
+
+// probe is the conservation check: no reader operation is in progress any
+// more (by the harness' own timeline), so a fresh context on the same clock
+// has to expire after exactly its timeout of wall time and report that much
+// unsuspended time.
+func (x *run) probe() {
+	if !x.wait("base timers of the finished object to be stopped", func() bool { return x.relevantPending() == 0 }) {
+		return
+	}
+	if x.count != 0 {
+		x.inconcl = fmt.Sprintf("harness bookkeeping: %d suspensions open after the timeline", x.count)
+		return
+	}
+	P := x.c.Threshold + 2
+	before := x.relevantCreated()
+	ctx, cancel := x.sc.NewContextWithTimeout(context.Background(), time.Duration(P)*unit)
+	defer cancel()
+	if !x.wait("the probe's first base timer", func() bool { return x.relevantCreated() >= before+2 }) {
+		return
+	}
+	start := x.nowU
+	x.logf("probe context created (timeout %d) pending=%v", P, x.clk.PendingDurations())
+	done := x.fireUntilDone(ctx, P+x.c.MaxSusp+10)
+	if x.inconcl != "" {
+		return
+	}
+	val, _ := ctx.Value(re_clock.UnsuspendedDurationKey{}).(time.Duration)
+	x.logf("probe done=%v after %d units, reports %v", done, x.nowU-start, val)
+	x.r.Situation("conservation-probe-after-timeline")
+	if !done || x.nowU-start != P || val != time.Duration(P)*unit || ctx.Err() != context.DeadlineExceeded {
+		x.violation("clock-suspended-although-no-reader-operation-in-progress",
+			fmt.Sprintf("after the timeline every reader operation has returned, yet a fresh context with timeout %d units expired=%v after %d units of wall time reporting %v unsuspended (err=%v): some suspension was never resumed", P, done, x.nowU-start, val, ctx.Err()))
+	}
+	cancel()
+	x.wait("base timers of the probe to be stopped", func() bool { return x.relevantPending() == 0 })
+}
+
+// secondAction runs a later action on the same executor and clock.
+func (x *run) secondAction() {
+	P := x.c.Threshold + 3
+	if !x.wait("base timers of earlier objects to be stopped", func() bool { return x.relevantPending() == 0 }) {
+		return
+	}
+	before := x.relevantCreated()
+	if !x.exec.launch(P) {
+		return
+	}
+	ctx := x.ctx
+	// The run context's re-arm loop registers its first base timer (and
+	// reads its starting point) asynchronously.
+	if !x.wait("the second action's first base timer", func() bool { return x.relevantCreated() >= before+2 }) {
+		return
+	}
+	start := x.nowU
+	x.logf("second action started (timeout %d)", P)
+	done := x.fireUntilDone(ctx, P+x.c.MaxSusp+10)
+	if x.inconcl != "" {
+		return
+	}
+	if !done {
+		x.violation("later-action-never-timed-out", fmt.Sprintf("a second action with timeout %d units on the same clock was not cancelled within timeout + maximum compensation", P))
+		return
+	}
+	var resp *remoteexecution.ExecuteResponse
+	select {
+	case resp = <-x.exec.response:
+		x.exec.returned = true
+	case <-time.After(40 * time.Second):
+		x.inconcl = "second Execute did not return after its run context ended"
+		return
+	}
+	code := codes.Code(resp.GetStatus().GetCode())
+	ved := resp.GetResult().GetExecutionMetadata().GetVirtualExecutionDuration().AsDuration()
+	x.logf("second action: code=%v after %d units, virtual_execution_duration=%v", code, x.nowU-start, ved)
+	x.r.Situation("later-action-on-same-clock")
+	if code != codes.DeadlineExceeded || x.nowU-start != P || ved != time.Duration(P)*unit {
+		x.violation("later-action-timeout-not-by-unsuspended-time",
+			fmt.Sprintf("a second action (timeout %d units, no storage activity) ended with %v after %d units of wall time and virtual_execution_duration=%v", P, code, x.nowU-start, ved))
 	}
 }
 
@@ -754,7 +1012,7 @@ func (x *run) startExecutor() bool {
 		x.inconcl = err.Error()
 		return false
 	}
-	es := &execState{dir: dir, finish: make(chan struct{}), entered: make(chan context.Context, 1), response: make(chan *remoteexecution.ExecuteResponse, 1)}
+	es := &execState{dir: dir, entered: make(chan context.Context, 1), response: make(chan *remoteexecution.ExecuteResponse, 1)}
 	es.cleanup = func() { closer.Close(); os.RemoveAll(dir) }
 	x.exec = es
 	var counter atomic.Uint64
@@ -766,46 +1024,54 @@ func (x *run) startExecutor() bool {
 	runner := &wexec.Runner{RunFunc: func(ctx context.Context, req *runner_pb.RunRequest) (*runner_pb.RunResponse, error) {
 		os.WriteFile(filepath.Join(dir, req.StdoutPath), nil, 0o644)
 		os.WriteFile(filepath.Join(dir, req.StderrPath), nil, 0o644)
+		finish := es.finish
 		es.entered <- ctx
 		select {
 		case <-ctx.Done():
 			return nil, wexec.ContextError(ctx)
-		case <-es.finish:
+		case <-finish:
 			return &runner_pb.RunResponse{ExitCode: 0}, nil
 		}
 	}}
 	executor := builder.NewLocalBuildExecutor(store, creator, runner, x.sc, time.Hour, nil, 1<<20, nil, false)
-	action := &remoteexecution.Action{
-		CommandDigest:   store.PutProto(&remoteexecution.Command{Arguments: []string{"true"}}).GetProto(),
-		InputRootDigest: store.PutProto(&remoteexecution.Directory{}).GetProto(),
-		Timeout:         durationpb.New(time.Duration(x.c.Timeout) * unit),
-		DoNotCache:      x.c.Idx%2 == 0,
-	}
-	request := &remoteworker.DesiredState_Executing{ActionDigest: store.PutProto(action).GetProto(), Action: action}
-	parent, pc := context.WithCancel(context.Background())
-	x.parentCancel = pc
-	updates := make(chan *remoteworker.CurrentState_Executing, 10)
-	go func() {
-		for range updates {
+	launches := 0
+	es.launch = func(timeout int) bool {
+		launches++
+		es.finish = make(chan struct{})
+		es.returned = false
+		action := &remoteexecution.Action{
+			CommandDigest:   store.PutProto(&remoteexecution.Command{Arguments: []string{"true", fmt.Sprint(launches)}}).GetProto(),
+			InputRootDigest: store.PutProto(&remoteexecution.Directory{}).GetProto(),
+			Timeout:         durationpb.New(time.Duration(timeout) * unit),
+			DoNotCache:      (x.c.Idx+launches)%2 == 0,
 		}
-	}()
-	go func() {
-		resp := executor.Execute(parent, nil, nil, wexec.DigestFunction, request, updates)
-		close(updates)
-		es.response <- resp
-	}()
-	select {
-	case x.ctx = <-es.entered:
-		return true
-	case resp := <-es.response:
-		es.returned = true
-		x.violation("executor-did-not-reach-runner", fmt.Sprintf("Execute returned %v before running the command", resp.GetStatus()))
-		x.finished = true
-		return false
-	case <-time.After(40 * time.Second):
-		x.inconcl = "executor did not reach the runner"
-		return false
+		request := &remoteworker.DesiredState_Executing{ActionDigest: store.PutProto(action).GetProto(), Action: action}
+		parent, pc := context.WithCancel(context.Background())
+		x.parentCancel = pc
+		updates := make(chan *remoteworker.CurrentState_Executing, 10)
+		go func() {
+			for range updates {
+			}
+		}()
+		go func() {
+			resp := executor.Execute(parent, nil, nil, wexec.DigestFunction, request, updates)
+			close(updates)
+			es.response <- resp
+		}()
+		select {
+		case x.ctx = <-es.entered:
+			return true
+		case resp := <-es.response:
+			es.returned = true
+			x.violation("executor-did-not-reach-runner", fmt.Sprintf("Execute returned %v before running the command", resp.GetStatus()))
+			x.finished = true
+			return false
+		case <-time.After(40 * time.Second):
+			x.inconcl = "executor did not reach the runner"
+			return false
+		}
 	}
+	return es.launch(x.c.Timeout)
 }
 
 func (x *run) finishExecutor(cause string) {
